@@ -27,6 +27,9 @@ def run(run, replay=None):
     for e in endings if thorough else [rng.pick(endings) for _ in range(18)] + ["しない", "かない", "べない", "い", "だ", ""]:
         st, sr = rng.pick(stems)
         regs.append(("Guess", sr + e, st + e))
+    # stem readings that themselves end in the ending the guesser strips (可愛い, 無駄だ, …)
+    regs += [("Guess", "かわいい", "可愛い"), ("Guess", "むだだ", "無駄だ"), ("Guess", "かないかない", "叶井かない"),
+             ("Guess", "いい", "良い"), ("Guess", "だだだ", "駄々だ")]
     for _ in range(30 if thorough else 6):
         st, sr = rng.pick(stems)
         rd = sr + "".join(rng.pick("あいうえおかきくけこーabc") for _ in range(rng.below(3)))
@@ -54,7 +57,8 @@ def run(run, replay=None):
     sample_inputs = ["くるまで", "しんかこか", "やまだ", "かか", "たべ", "たかい"]
     try:
         n_entries = 0
-        for (kind, rd, w), exp in zip(regs, impl):
+        # the forms a registration must make available are those of the model (equal to the dic crate's on the unchanged tree)
+        for (kind, rd, w), exp in zip(regs, model if model is not None and len(model) == len(regs) else impl):
             before = {i: set(S.texts(r.conv("normal", i)) or []) for i in sample_inputs[:3]}
             res = r.register(kind, rd, w)
             stats["registrations"] += 1
